@@ -10,3 +10,9 @@ pub mod stubs;
 #[cfg(kani)]
 #[path = "../../common/tracing_stubs.rs"]
 pub mod tracing_stubs;
+
+#[cfg(kani)]
+mod c14_retry;
+
+#[cfg(kani)]
+mod probe;
